@@ -192,7 +192,7 @@ def r7_value_passes(rep, facts, rid='C13/R7'):
     it = RecInterp(Evaluator(facts), {'serialize_map', 'serialize_entry', 'end'})
     env = {pn[0]: ('ctor', V + 'Table', (kids,)), pn[1]: ('opaque',), '@assign': {}}
     try:
-        it.val(b['body'], env)
+        it.run_body(b, env)
     except (Unanalysable, EvalPanic) as e:
         rep.incomplete(R, 'Value::serialize', f'cannot evaluate: {e}', facts.loc(b))
         return
